@@ -107,7 +107,8 @@ static bool read_header_from_file(zckCtx *zck) {
     zck_log(ZCK_LOG_DEBUG, "Reading the rest of the header: %llu bytes",
             (long long unsigned) zck->header_length);
     if(loaded < zck->header_length) {
-        if(read_data(zck, header + loaded, zck->header_length - loaded) < zck->header_length - loaded) {
+        ssize_t rb = read_data(zck, header + loaded, zck->header_length - loaded);
+        if(rb < 0 || (size_t)rb < zck->header_length - loaded) {
             set_fatal_error(zck, "Unable to read %llu bytes from the file", zck->header_length - loaded);
             return false;
         }
@@ -491,7 +492,8 @@ static bool read_lead(zckCtx *zck) {
     }
     size_t length = 0;
 
-    if(read_data(zck, header, lead) < lead) {
+    ssize_t rb = read_data(zck, header, lead);
+    if(rb < 0 || (size_t)rb < lead) {
         free(header);
         set_error(zck, "Short read");
         return false;
@@ -568,7 +570,8 @@ static bool read_lead(zckCtx *zck) {
     size_t to_read = 0;
     if(lead < length + zck->hash_type.digest_size)
         to_read = length + zck->hash_type.digest_size - lead;
-    if(read_data(zck, header + lead, to_read) < to_read) {
+    rb = read_data(zck, header + lead, to_read);
+    if(rb < 0 || (size_t)rb < to_read) {
         free(header);
         zck->header_length = 0;
         zck->hdr_digest_loc = 0;
